@@ -484,6 +484,119 @@ class CounterInduction(ast.NodeTransformer):
         return out
 
 
+# Which attributes can change after construction (set by model.Repo for the tree that is being analysed; None: unknown, no aliasing).
+#   ext        attribute names assigned through anything but `self` outside of constructors (obj.attr = ..), anywhere
+#   self_any   attribute names assigned through `self` outside of constructors, in any class
+#   self_by    class name -> attribute names assigned through `self` outside of constructors in that class
+#   bases      class name -> base class names
+# A chain `self.a` read in a method of class C is *effectively final* if `a` is in neither ext nor self_by[K] for any class K related
+# to C by inheritance; deeper attributes and chains rooted at other parameters are judged by name alone (ext and self_any).
+MUTABLE_ATTRS = None
+
+
+class Mutability:
+    def __init__(self):
+        self.ext, self.self_any, self.self_by, self.bases, self.wild = set(), set(), {}, {}, False
+
+    def update(self, other):
+        self.ext |= other.ext
+        self.self_any |= other.self_any
+        for k, v in other.self_by.items():
+            self.self_by.setdefault(k, set()).update(v)
+        for k, v in other.bases.items():
+            self.bases.setdefault(k, set()).update(v)
+        self.wild = self.wild or other.wild
+        return self
+
+    def family(self, cname):
+        """cname, its ancestors and its descendants (by simple class name)"""
+        up, stack = set(), [cname]
+        while stack:
+            c = stack.pop()
+            if c in up:
+                continue
+            up.add(c)
+            stack.extend(self.bases.get(c, ()))
+        down, changed = set(up), True
+        while changed:
+            changed = False
+            for c, bs in self.bases.items():
+                if c not in down and bs & down:
+                    down.add(c)
+                    changed = True
+        return down
+
+    def final(self, chain, cname):
+        if self.wild:
+            return False
+        attrs = []
+        e = chain
+        while isinstance(e, ast.Attribute):
+            attrs.append(e.attr)
+            e = e.value
+        attrs.reverse()
+        root = e.id if isinstance(e, ast.Name) else None
+        for k, a in enumerate(attrs):
+            if a in self.ext:
+                return False
+            if k == 0 and root == 'self' and cname:
+                if any(a in self.self_by.get(c, ()) or '*' in self.self_by.get(c, ()) for c in self.family(cname)):
+                    return False
+            elif a in self.self_any:
+                return False
+        return True
+
+
+def mutable_attrs_of(sources):
+    """scan module sources for attributes that are stored outside of constructors -> Mutability"""
+    mu = Mutability()
+    for src in sources:
+        try:
+            tree = ast.parse(src)
+        except SyntaxError:
+            continue
+
+        def scan(body, cname):
+            for st in body:
+                if isinstance(st, ast.ClassDef):
+                    mu.bases.setdefault(st.name, set()).update(x for x in (b.id if isinstance(b, ast.Name) else b.attr for b in st.bases if isinstance(b, (ast.Name, ast.Attribute))) if x != 'object')
+                    scan(st.body, st.name)
+                elif isinstance(st, (ast.FunctionDef, ast.AsyncFunctionDef)):
+                    ctor = cname is not None and st.name in ('__init__', '__new__')
+                    for n in ast.walk(st):
+                        if isinstance(n, ast.Attribute) and isinstance(n.ctx, (ast.Store, ast.Del)):
+                            through_self = isinstance(n.value, ast.Name) and n.value.id == 'self'
+                            if through_self and cname:
+                                if not ctor:
+                                    mu.self_any.add(n.attr)
+                                    mu.self_by.setdefault(cname, set()).add(n.attr)
+                            else:
+                                mu.ext.add(n.attr)
+                        elif isinstance(n, ast.Call) and isinstance(n.func, ast.Name) and n.func.id in ('setattr', 'delattr') and len(n.args) >= 2:
+                            if isinstance(n.args[1], ast.Constant) and isinstance(n.args[1].value, str):
+                                mu.ext.add(n.args[1].value)
+                            elif isinstance(n.args[0], ast.Name) and n.args[0].id in ('self', 'self_') and cname:
+                                # setattr(self, <computed name>, ..): every attribute of this class family can change
+                                mu.self_by.setdefault(cname, set()).add('*')
+                            elif st.name == '__get__' or (isinstance(n.args[0], ast.Attribute) and n.args[0].attr == 'values'):
+                                # a memoising descriptor stores the computed value under the property's own name (set once);
+                                # optparse stores option values on parser.values: neither changes an attribute behind a reader's back
+                                pass
+                            else:
+                                mu.wild = True
+                elif isinstance(st, (ast.If, ast.Try, ast.With, ast.For, ast.While)):
+                    for fld in ('body', 'orelse', 'finalbody'):
+                        scan(getattr(st, fld, []) or [], cname)
+                    for h in getattr(st, 'handlers', []) or []:
+                        scan(h.body, cname)
+                else:
+                    for x in ast.walk(st):
+                        if isinstance(x, ast.Attribute) and isinstance(x.ctx, (ast.Store, ast.Del)):
+                            mu.ext.add(x.attr)
+        scan(tree.body, None)
+    return mu
+
+
 class AliasInline(ast.NodeTransformer):
     """`v = p.a.b` (an attribute chain rooted at a parameter, v bound once, neither the chain nor a prefix / extension of it nor its
     root assigned anywhere in the function)  ->  the chain itself at every read of v.  A value that was merely given a shorter name
@@ -517,6 +630,8 @@ class AliasInline(ast.NodeTransformer):
                 if v in params or stores.get(v, 0) != 1 or r not in params or stores.get(r, 0) or \
                         any(sc == t or sc.startswith(t + '.') or t.startswith(sc + '.') for sc in stored_chains):
                     continue
+                if MUTABLE_ATTRS is None or not MUTABLE_ATTRS.final(st.value, getattr(self, 'cname', None)):
+                    continue        # a call between the alias and a use could assign the attribute: the local may hold the old value
                 aliases[v] = st
         if not aliases:
             return fn
@@ -539,6 +654,13 @@ class AliasInline(ast.NodeTransformer):
         return fn
 
     visit_AsyncFunctionDef = visit_FunctionDef
+
+    def visit_ClassDef(self, node):
+        saved = getattr(self, 'cname', None)
+        self.cname = node.name
+        self.generic_visit(node)
+        self.cname = saved
+        return node
 
 
 class ToAug(ast.NodeTransformer):
